@@ -115,6 +115,7 @@ class Frame:
         self.fn = fn_name
         self.this = this
         self.locals = {}
+        self.names = {}
         self.loops = 0
 
 
@@ -273,6 +274,7 @@ class Interp:
             else:
                 v = self.default_value(t)
             fr.locals[d["id"]] = v
+            fr.names[d["id"]] = d.get("name")
 
     def s_IfStmt(self, n, fr):
         inner = n["inner"]
@@ -331,8 +333,9 @@ class Interp:
 
     def loop(self, n, cond, inc, body, fr):
         fr.loops += 1
-        key = (fr.fn, fr.loops)
-        P = "%s/%s/loop%d" % (self.prop, fr.fn, fr.loops)
+        ordn = n.get("_loop_ord", fr.loops)
+        key = (fr.fn.split("::")[-1], ordn)
+        P = "%s/%s/loop%d" % (self.prop, fr.fn, ordn)
         mods = self.modset([body] + ([inc] if inc and inc.get("kind") else []), fr)
         counter = self.counter_info(n, cond, inc, fr, mods)
         inv_fn = self.loop_inv.get(key)
@@ -407,7 +410,11 @@ class Interp:
 
         def inv(self_, fr_):
             v = self_.to_int(fr_.locals[vid])
-            b = self_.to_int(self_.ev(bound_node, fr_, pure=True))
+            b = self_.ev(bound_node, fr_, pure=True)
+            if z3.is_real(b):
+                # the bound is a double: the counter stops at the first integer >= b
+                return z3.And(v >= a0, z3.Implies(z3.ToReal(a0) < b, z3.ToReal(v) < b + 1))
+            b = self_.to_int(b)
             return z3.And(v >= a0, z3.Implies(a0 <= b, v <= b))
         return {"inv": inv, "variant": True, "var": vid}
 
@@ -475,19 +482,24 @@ class Interp:
                 name = me.get("name")
                 if name in ("resize", "clear", "push_back"):
                     loc = self.root_loc(me["inner"][0], fr)
+                    recv = self.strip(me["inner"][0])
                     if loc:
                         out.add(loc)
-                        out.add(("len",) + loc)
+                        if recv.get("kind") == "CXXOperatorCallExpr":
+                            out.add(("rowlen",) + loc)       # a row of a vector<vector>: outer length kept
+                        else:
+                            out.add(("len",) + loc)
                 else:
-                    mid = me.get("referencedMemberDecl")
-                    fn = self.prog.by_id.get(mid)
-                    target = self.resolve_method(fn, fr) if fn is not None else None
+                    target = None
+                    if fr.this is not None and name:
+                        r = self.prog.method(fr.this.cls, name)
+                        target = r[0] if r else None
                     if target is not None and target["id"] not in seen:
                         seen.add(target["id"])
                         b = self.prog.body(target)
                         if b:
                             sub = self.modset([b], fr, seen)
-                            out |= {x for x in sub if x[0] in ("f", "g") or (x[0] == "len" and x[1] in ("f", "g"))}
+                            out |= {x for x in sub if x[0] in ("f", "g") or (x[0] in ("len", "rowlen") and x[1] in ("f", "g"))}
             elif k == "DeclStmt":
                 for d in n.get("inner", []):
                     if d.get("kind") == "VarDecl":
@@ -526,9 +538,11 @@ class Interp:
 
     def havoc(self, mods, fr):
         for loc in mods:
-            if loc[0] == "len":
+            if loc[0] in ("len", "rowlen"):
                 continue
             lenchg = (("len",) + loc) in mods
+            if (("rowlen",) + loc) in mods and not lenchg:
+                lenchg = "rows"
             if loc[0] == "l":
                 if loc[1] not in fr.locals:
                     continue
@@ -545,11 +559,14 @@ class Interp:
         if isinstance(v, Undef):
             return self.fresh(base, v.kind)
         if isinstance(v, Vec):
-            if lenchg:
+            if lenchg and lenchg != "rows":
                 return self.fresh_vec(base, v.kind)
             return Vec(v.kind, v.n, self.fresh_arr(base, v.kind))
         if isinstance(v, Vec2):
-            if lenchg:
+            if lenchg == "rows":
+                n = v.n
+                lens = z3.Array(self.c.fresh(base + "_lens"), z3.IntSort(), z3.IntSort())
+            elif lenchg:
                 n = self.fresh(base + "_n", "int")
                 self.c.assume(n >= 0)
                 lens = z3.Array(self.c.fresh(base + "_lens"), z3.IntSort(), z3.IntSort())
@@ -665,6 +682,8 @@ class Interp:
         v = self.ev(n["inner"][0], fr)
         k = kind_of_type(n["type"]["qualType"])
         if isinstance(v, Opaque):
+            if v.tag in ("poisson", "normal", "uniform", "rng", "dist"):
+                return v
             return self.fresh_nonneg("cast", k or "int")
         if k and z3.is_expr(v):
             return self.coerce(v, k)
@@ -690,7 +709,7 @@ class Interp:
     def e_DeclRefExpr(self, n, fr):
         d = n["referencedDecl"]
         if d.get("kind") in ("FunctionDecl", "CXXMethodDecl"):
-            return ("fn", d["id"], d.get("name"))
+            return ("fn", d["id"], d.get("name"), n.get("type", {}).get("qualType"))
         return self.lv(n, fr).get()
 
     def e_CXXThisExpr(self, n, fr):
@@ -713,15 +732,6 @@ class Interp:
         return Ref(lambda: obj.fields[name], lambda v: obj.fields.__setitem__(name, v))
 
     def e_MemberExpr(self, n, fr):
-        # bound method reference or field value
-        mid = n.get("referencedMemberDecl")
-        d = self.prog.by_id.get(mid)
-        if d is not None and d.get("kind") in ("CXXMethodDecl",):
-            base = self.strip(n["inner"][0])
-            obj = fr.this if base.get("kind") == "CXXThisExpr" else self.ev(n["inner"][0], fr)
-            return ("method", obj, d)
-        if d is None and n.get("name") in ("size", "resize", "clear", "push_back", "count"):
-            return ("libmethod", n["inner"][0], n.get("name"))
         return self.lv(n, fr).get()
 
     def deref(self, p, node, fr):
@@ -898,6 +908,12 @@ class Interp:
             def set_(x):
                 cur = vref.get()
                 x = self.coerce(x, cur.kind)
+                chk = getattr(self, "store_checks", {}).get(fname)
+                if chk is not None and fr.this is not None:
+                    fact = chk(self, fr.this, fr, x, idx)
+                    if fact is not None:
+                        self.c.oblige("%s/%s/entry-invariant-of-%s-kept-by-store" % (self.prop, self.where(node, fr), fname),
+                                      fact, "ensures")
                 if isinstance(cur, Vec):
                     vref.set(Vec(cur.kind, cur.n, z3.Store(cur.arr, idx, x)))
                 else:
@@ -908,7 +924,13 @@ class Interp:
 
             def getrow():
                 cur = vref.get()
-                return Vec(cur.kind, z3.Select(cur.lens, idx), z3.Select(cur.arr, idx))
+                ln = z3.Select(cur.lens, idx)
+                rf = getattr(self, "row_facts", {}).get(fname)
+                owner = fr.this if fr.this is not None else getattr(self, "default_obj", None)
+                if rf is not None and owner is not None:
+                    self.c.assume(rf(self, owner, ln, idx))
+                self.c.assume(ln >= 0)
+                return Vec(cur.kind, ln, z3.Select(cur.arr, idx))
 
             def setrow(row):
                 cur = vref.get()
@@ -922,11 +944,29 @@ class Interp:
             fact = f(self, fr.this, e, idx)
             if fact is not None:
                 self.c.assume(fact)
+        pf = getattr(self, "param_facts", {}).get(fname)
+        if pf is not None:
+            self.c.assume(pf(e))
+        g = getattr(self, "read_facts", {}).get(fname)
+        if g is not None and fr.this is not None:
+            fact = g(self, fr.this, fr, e, idx)
+            if fact is not None:
+                self.c.assume(fact)
+
+    def local_by_name(self, fr, name):
+        """value of the local variable / parameter called `name` in frame fr (contracts refer to program
+        variables by name; a missing name makes the contract inapplicable, i.e. the run undecided)"""
+        for did, v in fr.locals.items():
+            if fr.names.get(did) == name:
+                return v
+        return None
 
     def field_name_of(self, n):
         n = self.strip(n)
         if n.get("kind") == "MemberExpr":
             return n.get("name")
+        if n.get("kind") == "DeclRefExpr":
+            return n["referencedDecl"].get("name")
         if n.get("kind") == "CXXOperatorCallExpr" and len(n.get("inner", [])) >= 2:
             return self.field_name_of(n["inner"][1])
         return None
@@ -1139,12 +1179,20 @@ class Interp:
             return Opaque("duration")
         return None
 
+    def l_CallExpr(self, n, fr):
+        v = self.e_CallExpr(n, fr)
+        return Ref(lambda: v, lambda x: None)
+
+    def l_CXXMemberCallExpr(self, n, fr):
+        v = self.e_CXXMemberCallExpr(n, fr)
+        return Ref(lambda: v, lambda x: None)
+
     def e_CallExpr(self, n, fr):
         callee = self.ev(n["inner"][0], fr)
         argn = n["inner"][1:]
         if isinstance(callee, tuple) and callee[0] == "fn":
-            fn = self.prog.by_id.get(callee[1])
             name = callee[2]
+            fn = self.find_function(name, callee[3] if len(callee) > 3 else None)
             if fn is None or not self.prog.body(fn):
                 args = [self.ev(a, fr) for a in argn]
                 r = self.libcall(name, args, n, fr)
@@ -1159,9 +1207,18 @@ class Interp:
         me = self.strip(n["inner"][0])
         name = me.get("name")
         argn = n["inner"][1:]
-        mid = me.get("referencedMemberDecl")
-        d = self.prog.by_id.get(mid)
-        if d is None or not (d.get("kind") == "CXXMethodDecl" and (self.prog.body(d) or d.get("virtual") or d.get("pure"))):
+        own = None
+        if name not in ("size", "resize", "clear", "push_back", "count"):
+            base0 = self.strip(me["inner"][0])
+            if base0.get("kind") == "CXXThisExpr":
+                own = fr.this
+            else:
+                own = self.ev(me["inner"][0], fr)
+                if isinstance(own, ObjPtr):
+                    own = self.deref(own, n, fr)
+            if not isinstance(own, Obj):
+                own = None
+        if own is None:
             # library container methods
             if name in ("size", "resize", "clear", "push_back"):
                 ref = self.lv(me["inner"][0], fr)
@@ -1204,18 +1261,23 @@ class Interp:
                 self.ev(me["inner"][0], fr)
                 return self.fresh_nonneg("count", "int")
             raise Unsupported("member call %s at %s" % (name, self.where(n, fr)))
-        base = self.strip(me["inner"][0])
-        if base.get("kind") == "CXXThisExpr":
-            obj = fr.this
-        else:
-            obj = self.ev(me["inner"][0], fr)
-            if isinstance(obj, ObjPtr):
-                obj = self.deref(obj, n, fr)
+        obj = own
         args = [self.ev(a, fr) for a in argn]
         target, _ = self.prog.method(obj.cls, name) or (None, None)
         if target is None:
             raise Unsupported("no body for %s::%s" % (obj.cls, name))
         return self.call(target, obj, args, n, fr)
+
+    def find_function(self, name, qtype):
+        cands = self.prog.functions.get(name, [])
+        if not cands:
+            return None
+        if len(cands) == 1:
+            return cands[0]
+        for f in cands:
+            if f.get("type", {}).get("qualType") == qtype:
+                return f
+        return cands[0]
 
     def call(self, fn, this, args, node, fr):
         self.depth += 1
@@ -1234,6 +1296,7 @@ class Interp:
             if k and z3.is_expr(a):
                 a = self.coerce(a, k)
             nf.locals[p["id"]] = a
+            nf.names[p["id"]] = p.get("name")
         self.calls.append(name)
         ret = None
         try:
